@@ -177,6 +177,7 @@ def decomposite_bayer(img, cfa='rggb'):
         ndarray of shape (m//2, n//2)
 
     """
+    cfa = cfa.lower()
     if cfa == 'rggb':
         r = img[top_left]
         g1 = img[top_right]
@@ -187,6 +188,8 @@ def decomposite_bayer(img, cfa='rggb'):
         g1 = img[top_right]
         g2 = img[bottom_left]
         r = img[bottom_right]
+    else:
+        raise ErrBadCFA
 
     return r, g1, g2, b
 
